@@ -222,7 +222,7 @@ impl MmapStorage {
         );
 
         #[cfg(kahflane_turdb_verif)]
-        crate::verif::point("mmap.page_mut", &[page_no as i64]);
+        crate::verif::point("mmap.page_mut", &[page_no as i64, self.mmap.as_ptr() as i64]);
 
         let offset = page_no as usize * PAGE_SIZE;
         Ok(&mut self.mmap[offset..offset + PAGE_SIZE])
